@@ -85,7 +85,7 @@ func (c *Contracts) Get(key, sub string) *Block {
 }
 
 var labelRe = regexp.MustCompile(`^([A-Za-z][A-Za-z0-9_\-\.]*):\s+(.*)$`)
-var funcHdrRe = regexp.MustCompile(`^func\s+(\(\*?[A-Za-z0-9_]+\)\.)?([A-Za-z0-9_]+)(\s+(loop|lit)\s+([A-Za-z0-9_]+))?\s*$`)
+var funcHdrRe = regexp.MustCompile(`^func\s+(\(\*?[A-Za-z0-9_]+\)\.)?([A-Za-z0-9_]+)(\s+(loop|lit)\s+([A-Za-z0-9_@]+))?\s*$`)
 
 func normKey(recv, name string) string {
 	recv = strings.TrimPrefix(strings.TrimSuffix(strings.TrimSuffix(recv, "."), ")"), "(")
